@@ -126,6 +126,28 @@ def run(tier):
     record("TestRunTrace reports a stored sample 9 ulp outside its limits", bad_tr([dict(adv, after=dict(adv["after"], ex=9))]))
     record("TestRunTrace reports a read-out that starts one row late", bad_tr([dict(ro, ids=[3, 6])]))
 
+    # --- ProgressTrace: a timed run of 2 s with steps of 0.5 s (messages after 20 and 21 steps), then an ensemble run of two iterations
+    pg = [{"ev": "Begin", "call": "run_for", "m": 2000, "display": True, "t": 0},
+          {"ev": "Count", "steps": 20, "h": -1, "mi": 59, "s": 52, "done": 20, "t": 10000},
+          {"ev": "Final", "steps": 20, "h": 0, "mi": 0, "s": 2, "done": 20, "t": 10000}, {"ev": "End", "added": 20},
+          {"ev": "Begin", "call": "ensemble", "m": 2, "display": True, "t": 0},
+          {"ev": "Iter", "k": 0, "total": 2, "plain": True, "eta": 0, "done": 0, "t": 0},
+          {"ev": "Iter", "k": 1, "total": 2, "plain": False, "eta": 3, "done": 1, "t": 3400},
+          {"ev": "Iter", "k": 2, "total": 2, "plain": False, "eta": 0, "done": 2, "t": 6800},
+          {"ev": "Iter", "k": 2, "total": 2, "plain": True, "eta": 0, "done": 2, "t": 6800}, {"ev": "End", "added": 2}]
+
+    def bad_pg(recs):
+        return _rejected(_tlc_trace("ProgressTrace", recs, cfg_text=cfgt))
+
+    def edit(i, **kw):
+        return [dict(e, **kw) if k == i else e for k, e in enumerate(pg)]
+    record("ProgressTrace accepts a timed run and an ensemble run as displayed", not bad_pg(pg))
+    record("ProgressTrace reports a remaining time that is not the deadline minus now", bad_pg(edit(1, s=51)))
+    record("ProgressTrace reports a step count in the message that is not the growth of the chain", bad_pg(edit(2, steps=21)))
+    record("ProgressTrace reports an ETA of the wrong iteration", bad_pg(edit(7, eta=3)))
+    record("ProgressTrace reports a missing closing message", bad_pg(pg[:8] + pg[9:]))
+    record("ProgressTrace reports a message written while the display is off", bad_pg([dict(pg[4], display=False)] + pg[5:]))
+
     allok = all(r["ok"] for r in results)
     os.makedirs(EVID, exist_ok=True)
     with open(os.path.join(EVID, "selftest.json"), "w") as fh:
